@@ -67,8 +67,166 @@ func mentionsField(f *core.FuncInfo, n ast.Node, field string) bool {
 	return found
 }
 
+// singleDef returns the defining expression of a local variable that has exactly one plain definition
+// (`x := expr`, `var x = expr`, or a single `x = expr` after `var x T`) in the function where it is
+// declared (searching enclosing functions for captured variables). Parameters, receivers, named
+// results, range variables, multi-value definitions and variables assigned more than once have none.
+func singleDef(f *core.FuncInfo, v *types.Var) ast.Expr {
+	if v == nil || v.IsField() || v.Pkg() == nil || v.Parent() == v.Pkg().Scope() {
+		return nil
+	}
+	for g := f; g != nil; g = g.Parent {
+		if !(g.Body.Pos() <= v.Pos() && v.Pos() < g.Body.End()) {
+			continue
+		}
+		var rhs ast.Expr
+		n := 0
+		for _, a := range assignments(g) {
+			if varOfRaw(g, a.LHS) != v {
+				// a store through the variable (v.f = …, v[i] = …, *v = …) makes it a mutable object of
+				// its own, not an alias of its defining expression
+				root := ast.Unparen(a.LHS)
+				depth := 0
+				for {
+					switch x := root.(type) {
+					case *ast.SelectorExpr:
+						root, depth = ast.Unparen(x.X), depth+1
+						continue
+					case *ast.IndexExpr:
+						root, depth = ast.Unparen(x.X), depth+1
+						continue
+					case *ast.StarExpr:
+						root, depth = ast.Unparen(x.X), depth+1
+						continue
+					}
+					break
+				}
+				if depth > 0 && varOfRaw(g, root) == v {
+					return nil
+				}
+				continue
+			}
+			if a.RHS == nil {
+				if _, isSpec := a.Stmt.(*ast.ValueSpec); isSpec {
+					continue // var x T (zero value), followed by one assignment
+				}
+				return nil // range / inc-dec / multi-value
+			}
+			if as, ok := a.Stmt.(*ast.AssignStmt); ok && (len(as.Lhs) != len(as.Rhs) || (as.Tok != token.DEFINE && as.Tok != token.ASSIGN)) {
+				return nil
+			}
+			n++
+			rhs = a.RHS
+		}
+		// assignments made inside nested literals also count as definitions
+		for _, l := range allLits(g) {
+			for _, a := range assignments(l) {
+				if varOfRaw(l, a.LHS) == v {
+					return nil
+				}
+			}
+		}
+		if n == 1 {
+			return rhs
+		}
+		return nil
+	}
+	return nil
+}
+
+// resolveLocal follows single-definition locals: `k := f.x.y; use(k)` resolves k to f.x.y.
+func resolveLocal(f *core.FuncInfo, e ast.Expr) ast.Expr {
+	for depth := 0; depth < 5; depth++ {
+		e = ast.Unparen(e)
+		id, ok := e.(*ast.Ident)
+		if !ok {
+			return e
+		}
+		if lhsIdents(f)[id] {
+			return e // the identifier is being assigned here, not read
+		}
+		v, _ := f.Info().ObjectOf(id).(*types.Var)
+		d := singleDef(f, v)
+		if d == nil {
+			return e
+		}
+		// a local that holds a memory read (field / element) is a snapshot, not an alias, when that
+		// location is written anywhere in the function: do not look through it
+		if readsWrittenLocation(f, d) {
+			return e
+		}
+		e = d
+	}
+	return e
+}
+
+// readsWrittenLocation: d reads a field that some assignment in the enclosing declared function
+// (including its literals) writes.
+func readsWrittenLocation(f *core.FuncInfo, d ast.Expr) bool {
+	fields := map[string]bool{}
+	ast.Inspect(d, func(n ast.Node) bool {
+		if _, ok := n.(*ast.FuncLit); ok {
+			return false
+		}
+		if sel, ok := n.(*ast.SelectorExpr); ok {
+			if s, ok := f.Info().Selections[sel]; ok {
+				if v, ok := s.Obj().(*types.Var); ok && v.IsField() {
+					fields[f.P.FieldName(v)] = true
+				}
+			}
+		}
+		return true
+	})
+	if len(fields) == 0 {
+		return false
+	}
+	top := f
+	for top.Parent != nil {
+		top = top.Parent
+	}
+	all := append([]*core.FuncInfo{top}, allLits(top)...)
+	for _, g := range all {
+		for _, a := range assignments(g) {
+			lhs := ast.Unparen(a.LHS)
+			for {
+				switch x := lhs.(type) {
+				case *ast.IndexExpr:
+					lhs = ast.Unparen(x.X)
+					continue
+				case *ast.StarExpr:
+					lhs = ast.Unparen(x.X)
+					continue
+				}
+				break
+			}
+			if sel, ok := lhs.(*ast.SelectorExpr); ok {
+				if s, ok := g.Info().Selections[sel]; ok {
+					if v, ok := s.Obj().(*types.Var); ok && v.IsField() && fields[g.P.FieldName(v)] {
+						return true
+					}
+				}
+			}
+		}
+	}
+	return false
+}
+
+func varOfRaw(f *core.FuncInfo, e ast.Expr) *types.Var {
+	id, ok := ast.Unparen(e).(*ast.Ident)
+	if !ok {
+		return nil
+	}
+	v, _ := f.Info().ObjectOf(id).(*types.Var)
+	return v
+}
+
 // fieldNameOf returns the canonical field name a selector denotes ("" if it is not a field).
+// Single-definition locals are looked through.
 func fieldNameOf(f *core.FuncInfo, e ast.Expr) string {
+	if e == nil {
+		return ""
+	}
+	e = resolveLocal(f, e)
 	sel, ok := ast.Unparen(e).(*ast.SelectorExpr)
 	if !ok {
 		return ""
@@ -84,9 +242,14 @@ func fieldNameOf(f *core.FuncInfo, e ast.Expr) string {
 // fieldPath renders a chain of field selections as the list of canonical field names, outermost last:
 // s.maxProcessing.Num -> [DataSemaphore.maxProcessing, Metric.Num]; the root expression is returned too.
 func fieldPath(f *core.FuncInfo, e ast.Expr) (root ast.Expr, path []string) {
+	if e == nil {
+		return nil, nil
+	}
 	e = ast.Unparen(e)
 	for {
-		sel, ok := e.(*ast.SelectorExpr)
+		// look through a single-definition local only when it stands for a field selection
+		r := resolveLocal(f, e)
+		sel, ok := r.(*ast.SelectorExpr)
 		if !ok {
 			break
 		}
@@ -108,7 +271,10 @@ func calleeName(f *core.FuncInfo, call *ast.CallExpr) string {
 
 // isCallTo: is e (after parens) a call to one of names? returns the call.
 func isCallTo(f *core.FuncInfo, e ast.Expr, names ...string) *ast.CallExpr {
-	call, ok := ast.Unparen(e).(*ast.CallExpr)
+	if e == nil {
+		return nil
+	}
+	call, ok := resolveLocal(f, e).(*ast.CallExpr)
 	if !ok {
 		return nil
 	}
@@ -123,6 +289,9 @@ func isCallTo(f *core.FuncInfo, e ast.Expr, names ...string) *ast.CallExpr {
 
 // varOf returns the variable object an identifier expression denotes.
 func varOf(f *core.FuncInfo, e ast.Expr) *types.Var {
+	if e == nil {
+		return nil
+	}
 	id, ok := ast.Unparen(e).(*ast.Ident)
 	if !ok {
 		return nil
